@@ -299,7 +299,7 @@ func init() {
 
 var hostileStrings = []string{
 	"", "\x00", " ", "0", "00", "+12", "-0", "+0", "-12", "12+", "1e3", "0x1", "1_0", "١٢٣", "１２３", "*", "**", "*A*", "A", "AA", "a", "!", "ñ", "òóô", "õ", "ð",
-	"\x7f", "\u0080", "\xff", "\xc3", "\xc3\x28", "\xf1", "é", "€", "😀", "A1B", "A", "AB", "B1A\n", "a1b", "A1BA1B", "1234567", "12345670", "12345678", "123456B", "123456BB",
+	"\x7f", "\u0080", "\xff", "\xc3", "\xc3\x28", "\xf1", "é", "€", "😀", "A1B", "A", "AB", "B1A\n", "a1b", "A1BA1B", "A1E", "E1A", "A1T", "T1N", "*1*", "A1", "1A", "A12e", "1234567", "12345670", "12345678", "123456B", "123456BB",
 	"1234567F", "123456789012", "1234567890128", "1234567890123", "12", "123", "12é", "é", "\n", "\r\n", ". ", ", ", ": ", "\"", "'", "AA1;;\x80;;;;;;", "FOOBAR", "invalid",
 	strings.Repeat("1", 80), strings.Repeat("1", 81), strings.Repeat("a", 80), strings.Repeat("a", 81), strings.Repeat("ñ", 80), strings.Repeat("ñ", 81),
 }
